@@ -261,8 +261,10 @@ type srvSim struct {
 
 	nodes    []*snode
 	minPeers int
-	tmp      string
-	start    time.Time
+	// maxBlockTimeMS: the largest block time (policy value) the chain has had so far
+	maxBlockTimeMS int
+	tmp            string
+	start          time.Time
 
 	mu           sync.Mutex
 	outbox       []*simPkt
